@@ -12,6 +12,9 @@ Qed.
 Lemma ans_is_eq o w : ans_is o w = true -> o = Some w.
 Proof. destruct o as [a|]; cbn; [|discriminate]. destruct a, w; cbn; congruence. Qed.
 
+Lemma wr_is_eq o v : wr_is o v = true -> o = Some v.
+Proof. destruct o as [a|]; cbn; [|discriminate]. destruct a, v; cbn; congruence. Qed.
+
 Lemma producer_spec reqs os i w j :
   producer reqs os i w j = true ->
   j <> i /\ rkey (rq reqs j) = rkey (rq reqs i) /\ elig (rq reqs j) = true /\
@@ -26,40 +29,55 @@ Proof.
   - apply ans_is_eq; assumption.
 Qed.
 
-Lemma check_actor_sound reqs os i :
-  check_actor reqs os i = None -> actor_ok reqs os i.
+Lemma check_wrote_sound sub reqs os i d :
+  check_wrote sub reqs os i d = None -> wrote_ok sub reqs os i d.
 Proof.
-  unfold check_actor, actor_ok.
-  destruct (o_res (ob os i)) as [d|[a|a]| | |]; try discriminate.
-  - destruct (o_shared (ob os i)).
-    + destruct (elig (rq reqs i)) eqn:El; cbn [negb]; [|discriminate].
-      destruct (existsb (fun j => producer reqs os i AOk j || producer reqs os i AFailBody j || producer reqs os i ACanBody j) (actors reqs)) eqn:Ex;
-        cbn [negb]; [|discriminate].
-      intros H. split; [reflexivity|].
-      destruct (existsb (fun j => producer reqs os i AOk j) (actors reqs)) eqn:E1.
-      * cbn [andb] in H. destruct (bytes_eqb d (rok (rq reqs i))) eqn:B1.
-        -- apply existsb_exists in E1 as (j & Hin & Hp). apply producer_spec in Hp as (? & ? & ? & ? & ?).
-           exists j, AOk. unfold actors in Hin. apply in_seq in Hin.
-           repeat split; auto; try lia. left. split; auto. apply bytes_eqb_eq; assumption.
-        -- destruct (existsb (fun j => producer reqs os i AFailBody j) (actors reqs)) eqn:E2; cbn [andb] in H; [|discriminate].
-           destruct (bytes_eqb d (rfail (rq reqs i))) eqn:B2; [|discriminate].
-           apply existsb_exists in E2 as (j & Hin & Hp). apply producer_spec in Hp as (? & ? & ? & ? & ?).
-           exists j, AFailBody. unfold actors in Hin. apply in_seq in Hin.
-           repeat split; auto; try lia. right. split; auto. apply bytes_eqb_eq; assumption.
-      * cbn [andb] in H.
-        destruct (existsb (fun j => producer reqs os i AFailBody j) (actors reqs)) eqn:E2; cbn [andb] in H; [|discriminate].
+  unfold check_wrote, wrote_ok.
+  destruct (o_shared (ob os i)).
+  - destruct (elig (rq reqs i)) eqn:El; cbn [negb]; [|discriminate].
+    destruct (sub && bytes_eqb d [] && existsb (fun j => producer reqs os i APanic j) (actors reqs)) eqn:Cr.
+    { intros _. split; [reflexivity|].
+      apply andb_prop in Cr as [Cr E0]. apply andb_prop in Cr as [Sb B0].
+      apply existsb_exists in E0 as (j & Hin & Hp). apply producer_spec in Hp as (? & ? & ? & ? & ?).
+      exists j, APanic. unfold actors in Hin. apply in_seq in Hin.
+      repeat split; auto; try lia. right; right. repeat split; auto. apply bytes_eqb_eq; assumption. }
+    destruct (existsb (fun j => producer reqs os i AOk j || producer reqs os i AFailBody j || producer reqs os i ACanBody j) (actors reqs)) eqn:Ex;
+      cbn [negb]; [|discriminate].
+    intros H. split; [reflexivity|].
+    destruct (existsb (fun j => producer reqs os i AOk j) (actors reqs)) eqn:E1.
+    + cbn [andb] in H. destruct (bytes_eqb d (rok (rq reqs i))) eqn:B1.
+      * apply existsb_exists in E1 as (j & Hin & Hp). apply producer_spec in Hp as (? & ? & ? & ? & ?).
+        exists j, AOk. unfold actors in Hin. apply in_seq in Hin.
+        repeat split; auto; try lia. left. split; auto. apply bytes_eqb_eq; assumption.
+      * destruct (existsb (fun j => producer reqs os i AFailBody j) (actors reqs)) eqn:E2; cbn [andb] in H; [|discriminate].
         destruct (bytes_eqb d (rfail (rq reqs i))) eqn:B2; [|discriminate].
         apply existsb_exists in E2 as (j & Hin & Hp). apply producer_spec in Hp as (? & ? & ? & ? & ?).
         exists j, AFailBody. unfold actors in Hin. apply in_seq in Hin.
-        repeat split; auto; try lia. right. split; auto. apply bytes_eqb_eq; assumption.
-    + destruct (o_ans (ob os i)) as [[| | | |]|]; try discriminate.
-      * destruct (bytes_eqb d (rok (rq reqs i))) eqn:B; [|discriminate]. intros _. left. split; auto.
-        apply bytes_eqb_eq; assumption.
-      * destruct (bytes_eqb d (rfail (rq reqs i))) eqn:B; [|discriminate]. intros _. right; left. split; auto.
-        apply bytes_eqb_eq; assumption.
-      * destruct (o_cancelled (ob os i)); cbn [andb]; [|discriminate].
-        destruct (bytes_eqb d (rcan (rq reqs i))) eqn:B; [|discriminate]. intros _. right; right.
-        repeat split; auto. apply bytes_eqb_eq; assumption.
+        repeat split; auto; try lia. right; left. split; auto. apply bytes_eqb_eq; assumption.
+    + cbn [andb] in H.
+      destruct (existsb (fun j => producer reqs os i AFailBody j) (actors reqs)) eqn:E2; cbn [andb] in H; [|discriminate].
+      destruct (bytes_eqb d (rfail (rq reqs i))) eqn:B2; [|discriminate].
+      apply existsb_exists in E2 as (j & Hin & Hp). apply producer_spec in Hp as (? & ? & ? & ? & ?).
+      exists j, AFailBody. unfold actors in Hin. apply in_seq in Hin.
+      repeat split; auto; try lia. right; left. split; auto. apply bytes_eqb_eq; assumption.
+  - destruct (o_ans (ob os i)) as [[| | | | |]|]; try discriminate.
+    + destruct (bytes_eqb d (rok (rq reqs i))) eqn:B; [|discriminate]. intros _. left. split; auto.
+      apply bytes_eqb_eq; assumption.
+    + destruct (bytes_eqb d (rfail (rq reqs i))) eqn:B; [|discriminate]. intros _. right; left. split; auto.
+      apply bytes_eqb_eq; assumption.
+    + destruct (o_cancelled (ob os i)); cbn [andb]; [|discriminate].
+      destruct (bytes_eqb d (rcan (rq reqs i))) eqn:B; [|discriminate]. intros _. right; right.
+      repeat split; auto. apply bytes_eqb_eq; assumption.
+Qed.
+
+Lemma check_actor_sound sub reqs os i :
+  check_actor sub reqs os i = None -> actor_ok sub reqs os i.
+Proof.
+  unfold check_actor, actor_ok.
+  destruct (o_res (ob os i)) as [d|[a|a]| | | |a d|]; try discriminate.
+  - destruct (wr_is (o_wr (ob os i)) WFail) eqn:W; [discriminate|].
+    intros H. split; [|apply check_wrote_sound; assumption].
+    intro X. rewrite X in W. discriminate.
   - destruct (a =? i) eqn:E.
     + apply Nat.eqb_eq in E. subst a.
       destruct (ans_is (o_ans (ob os i)) AErrUp) eqn:A; [|discriminate]. intros _. left. split; auto.
@@ -69,19 +87,37 @@ Proof.
       apply producer_spec in P as (? & ? & ? & ? & ?). right. repeat split; auto.
   - destruct (a =? i) eqn:E; cbn [andb]; [|discriminate].
     destruct (o_cancelled (ob os i)); [|discriminate]. intros _. apply Nat.eqb_eq in E. auto.
+  - destruct (a =? i) eqn:E; cbn [andb]; [|discriminate].
+    destruct (wr_is (o_wr (ob os i)) WFail) eqn:W; [|discriminate].
+    intros H. apply Nat.eqb_eq in E. repeat split; auto.
+    + apply wr_is_eq; assumption.
+    + apply check_wrote_sound; assumption.
+  - destruct (ans_is (o_ans (ob os i)) APanic) eqn:A; cbn [orb].
+    + intros _. left. apply ans_is_eq; assumption.
+    + destruct (wr_is (o_wr (ob os i)) WPanic) eqn:W; [|discriminate].
+      intros _. right. apply wr_is_eq; assumption.
 Qed.
 
-Lemma first_fail_none reqs os l :
-  first_fail reqs os l = None -> forall i, In i l -> check_actor reqs os i = None.
+Lemma first_fail_none sub reqs os l :
+  first_fail sub reqs os l = None -> forall i, In i l -> check_actor sub reqs os i = None.
 Proof.
   induction l as [|x l IH]; cbn; intros H i Hin; [contradiction|].
-  destruct (check_actor reqs os x) eqn:E; [discriminate|].
+  destruct (check_actor sub reqs os x) eqn:E; [discriminate|].
   destruct Hin as [->|Hin]; auto.
 Qed.
 
-Lemma spec_b_sound reqs os :
-  spec_b reqs os = None -> forall i, i < length reqs -> actor_ok reqs os i.
+Lemma spec_b_sound sub reqs os :
+  spec_b sub reqs os = None -> forall i, i < length reqs -> actor_ok sub reqs os i.
 Proof.
   intros H i Hi. apply check_actor_sound. eapply first_fail_none; [exact H|].
   unfold actors. apply in_seq. lia.
+Qed.
+
+Lemma spec_q_b_sound sub reqs os reg :
+  spec_q_b sub reqs os reg = None ->
+  reg = 0 /\ forall i, i < length reqs -> actor_ok sub reqs os i.
+Proof.
+  unfold spec_q_b. destruct (spec_b sub reqs os) eqn:E; [discriminate|].
+  destruct (Nat.eqb_spec reg 0); [|discriminate]. intros _. split; [assumption|].
+  apply spec_b_sound; assumption.
 Qed.
